@@ -108,9 +108,14 @@ CLAIMED['C14'] = dict(
     text='Partial by design, three structural clauses that hold or fail for every input at once: (1) for every number 0..7 of bits pending in the bit buffer, the one write_bits that sync_flush issues is three zero header bits (non-final stored block), zero padding up to the byte boundary, LEN = 0000, NLEN = FFFF - the marker bytes and their alignment; (2) with flush == FULL_FLUSH every path from the marker write to the return clears has_hist, and in isal_deflate a test of has_hist == IGZIP_NO_HIST dominates every compressing call and always calls reset_match_history - no hash bucket survives a full flush; (3) isal_deflate_stateless forces end_of_stream only under NO_FLUSH, so a one-shot full-flush call leaves the stream unterminated. NOT decided: that everything fed so far is encoded and flushed before the marker, and decoding from the flush point (which needs the match finders\' window guards of C17 as well).',
     note='Trusts clang IR + sroa, tools/constinterp.py, tools/llir.py dominators.')
 
+CLAIMED['C09'] = dict(
+    category='other', design_ref='DESIGN.md section 8.2, C09',
+    technique='static analysis: LLVM scalar-evolution closed forms (opt-14) of every store address over the linked IR, compared as polynomials with the documented matrix layout; value-expression trees of stores compared between sibling data structures; dominance / data-dependent-exit analysis',
+    text='Partial by design, structural clauses only: (1) gf_gen_cauchy1_matrix and gf_gen_rs_matrix clear k*m bytes, write the identity into the top k x k block and, for rows k..m-1 and columns 0..k-1, store at exactly a + k*i + j the documented coefficient - gf_inv(i xor j), resp. the running product with p0 = 1, p <- p*gen, gen0 = 1, gen <- gen*2 (addresses are closed forms from scalar evolution, incl. the pointer-walking form, checked as polynomial identities; loop trip counts m-k and k); (2) gf_invert_matrix starts out_mat as the identity, applies in each of its three innermost loops the same elementary row operation to in_mat and out_mat (same element index, same expression, the same multiplier value), scales row i by gf_inv(in_mat[i*(n+1)]), adds gf_mul(in_mat[j*n+i], row i) to every row j != i, swaps rows elementwise, and returns -1 exactly where the pivot search ran to n. NOT decided: that every k x k minor of the generated matrices is invertible, that the elimination yields the exact inverse for every non-singular input, recovery of erased blocks.',
+    note='Trusts clang 14 IR, opt-14 scalar evolution, the SCEV parser in tools/scev.py (fails closed); width conversions are treated as identity (int index arithmetic assumed not to overflow).')
+
 NOT_APPLICABLE = {
     'C07': 'quantifies over call histories and buffer schedules; resumption correctness depends on run-time counts carried in state, no structural clause beyond the state-enum mirror already checked under C01',
-    'C09': 'algebraic property of run-time matrices (invertibility, products over GF(2^8)); nothing in the shape of the code decides it, and loop summarisation over symbolic (m,k) is out of reach of the analyses used',
 }
 
 PENDING = {}  # properties not yet implemented are listed as not_applicable with reason "check under construction"
